@@ -1,4 +1,8 @@
-use std::{fmt, sync::atomic::AtomicU32};
+#[cfg(cstree_verif)]
+use crate::verif::AtomicU32;
+use std::fmt;
+#[cfg(not(cstree_verif))]
+use std::sync::atomic::AtomicU32;
 
 use text_size::{TextRange, TextSize};
 
